@@ -12,6 +12,12 @@ CFG = {
               'layout::size': 'layout_size', '_ZN6layout3locC1Em': 'layout_loc_ctor'},
 }
 ROOTS = ['layout::reserve|layout::loc (size_t, size_t)', 'layout::size']
+LEX_CFG = {
+    'names': {'parse_esc_num': 'lex_parse_esc_num'},
+    'extern': {'memcpy': 'memcpy', 'strtoul': 'verif_strtoul'},
+    'bodies_prelude': '#include "libc_model.h"\n',
+}
+LEX_ROOTS = ['parse_esc_num']
 INPUTS = ['a', 'b', 'in_size', 'in_align', 's1', 'a1', 's2', 'a2']
 
 
@@ -26,6 +32,10 @@ def jobs(tier):
     add('size', 'h_size', 'layout_size')
     add('two_reservations', 'h_two_reservations', None, replace=['layout_reserve'], kind='lemma',
         note='client lemma proved from the contract of reserve alone')
+    lsrc = src + [os.path.join(OUT, 'lex_bodies.c')]
+    J.append(Job('parse_esc_num', lsrc, 'h_parse_esc_num', enforce='lex_parse_esc_num', includes=inc,
+                 inputs=['in_len', 'in_ignore', 'in_base'], defines=['C13_LEXER'], timeout=600, unwind=8,
+                 note='loops only in the strtoul model, bounded by the 4 characters the scanner rule admits (full unwind = complete)'))
     add('control', 'h_control', None, defines=['VERIF_CONTROL'], kind='control', expect='fail')
     return J
 
@@ -35,6 +45,7 @@ TRUSTED = ['tools/cxx2c.py lowering (no native fidelity check for this unit: thr
 ASSUMPTIONS = [
     'alignment is a power of two (alignof of a C++ type always is) and sizes keep the area below 2^48 bytes',
     'add_union (range-for over std::vector<layout>) is not extracted',
+    'parse_esc_num: precondition = the scanner rules that call it (\\[0-3][0-7]?[0-7]? and \\x HEX HEX); strtoul by props/c13/libc_model.h (assumed contract on glibc); the operand of throw (message construction) is dropped',
     'SLICE: construct-once/destroy-once of op state, leaks, use-after-free in the op graph and parser are NOT covered by this check',
 ]
 EXPLANATION = 'Only the layout arithmetic that places states in the shared state area; see DESIGN.md section 4 C13.'
@@ -46,4 +57,8 @@ def spec_files():
 
 def prepare(tier):
     lw = vlib.extract('layout', 'libzwerg/layout.cc', CFG, ROOTS, OUT)
-    return {'unit': 'libzwerg/layout.cc', 'functions': lw.report['functions']}
+    gen = vlib.gen_frontend(os.path.join(OUT, 'gen'))
+    lx = vlib.extract('lex', os.path.join(gen, 'lexer.cc'), LEX_CFG, LEX_ROOTS, OUT, extra_flags=['-I' + gen])
+    return {'units': ['libzwerg/layout.cc', 'libzwerg/lexer.ll (through flex, regenerated on every run)'],
+            'functions': lw.report['functions'] + lx.report['functions'],
+            'dropped': lx.report.get('throws', [])}
